@@ -315,12 +315,13 @@ CVS = 'rsatoolbox.inference.crossvalsets.'
 NC = 'rsatoolbox.inference.noise_ceiling.'
 
 
-def _havoc_sets(E, sample, pd, rd, k_pattern, k_rdm, k=0, idxs=None):
-    """the (train, test, ceil) lists of [RDMs, pattern index] pairs of the k-th sets_k_fold call: any outcome (its own contract is C05)"""
-    fv = E.find_function(CVS + 'sets_k_fold')
-    bound = E.bind_args(fv.node, [sample], dict(pattern_descriptor=pd, rdm_descriptor=rd, k_pattern=k_pattern, k_rdm=k_rdm,
-                                                random=True), module=fv.module)
-    base = E.havoc(CVS + 'sets_k_fold', [bound[q] for q in bound], 'val', k=k, idxs=idxs)
+def _havoc_sets(E, sample, pd, rd, k_pattern, k_rdm, k=0, idxs=None, gen='sets_k_fold', extra=None):
+    """the (train, test, ceil) lists of [RDMs, pattern index] pairs of the k-th fold-generator call: any outcome (its own contract is C05)"""
+    fv = E.find_function(CVS + gen)
+    kws = dict(pattern_descriptor=pd, rdm_descriptor=rd, k_pattern=k_pattern, k_rdm=k_rdm, random=True) if gen == 'sets_k_fold' \
+        else dict(pattern_descriptor=pd, rdm_descriptor=rd, n_pattern=k_pattern, n_rdm=k_rdm, n_cv=extra)
+    bound = E.bind_args(fv.node, [sample], kws, module=fv.module)
+    base = E.havoc(CVS + gen, [bound[q] for q in bound], 'val', k=k, idxs=idxs)
     out = []
     for which in range(3):
         lst = E.app('getitem', [base, which])
@@ -341,6 +342,12 @@ def engine_cv(run):
         return _havoc_sets(E, bound['rdms'], bound['pattern_descriptor'], bound['rdm_descriptor'], bound['k_pattern'], bound['k_rdm'],
                            k=None)
     E.contracts[CVS + 'sets_k_fold'] = Contract(CVS + 'sets_k_fold', define=define_sets,
+                                                doc='havoc: any (train, test, ceil) lists of [RDMs, indices] pairs (own contract: C05)')
+
+    def define_random(E, **bound):
+        return _havoc_sets(E, bound['rdms'], bound['pattern_descriptor'], bound['rdm_descriptor'], bound['n_pattern'], bound['n_rdm'],
+                           k=None, gen='sets_random', extra=bound['n_cv'])
+    E.contracts[CVS + 'sets_random'] = Contract(CVS + 'sets_random', define=define_random,
                                                 doc='havoc: any (train, test, ceil) lists of [RDMs, indices] pairs (own contract: C05)')
     E.func_ret[EV + 'crossval'] = 'Result'
     E.schemas['Result'] = {'evaluations': 'val'}
@@ -538,6 +545,104 @@ def check_dual(run, E):
     del E.contracts[EV + '_internal_cv']
 
 
+def check_dual_random(run, E):
+    """eval_dual_bootstrap_random: for every draw i (havoc) with more than n_rdm distinct RDM groups and at least 3 + n_pattern
+    distinct condition groups, the n_cv random train/test splits of THAT resample (sets_random, havoc) are evaluated by crossval
+    with the fold indices expanded to the bootstrap multiplicities and the caller's method / fitter / pattern_descriptor;
+    evaluations[i] is that result, the ceiling that of the same folds (or leave-one-group-out when nothing is held out),
+    stored along the bound axis; smaller draws are NaN; dof and cv_method follow the boot_type"""
+    for bt, cfg in BOOTCV.items():
+        ck = FuncCheck(E, run, 'C04', EV + 'eval_dual_bootstrap_random', f'boot_type={bt}')
+
+        def mk(E, bt=bt):
+            models = E.sym_list('models', 'Model')
+            kw = dict(method=E.sym_val('method', tag='scalar'), fitter=E.sym_val('fitter'), n_pattern=E.sym_int('n_pattern'),
+                      n_rdm=E.sym_int('n_rdm'), N=E.sym_int('N'), n_cv=E.sym_int('n_cv'), pattern_descriptor=E.sym_val('pd', tag='scalar'),
+                      rdm_descriptor=E.sym_val('rd', tag='scalar'), boot_type=bt, use_correction=False)
+            assume = [kw['n_pattern'].z >= 0, kw['n_rdm'].z >= 0, z3.Or(kw['n_pattern'].z > 0, kw['n_rdm'].z > 0), kw['N'].z >= 2,
+                      kw['n_cv'].z >= 1, models.zlen() >= 1]
+            return [models, E.sym_obj('data', 'RDMs')], kw, assume
+
+        def post(ck, E, args, kw, p, bt=bt, cfg=cfg):
+            models, data = args
+            res = p.value
+            method, fitter, pd, rd = kw['method'], kw['fitter'], kw['pattern_descriptor'], kw['rdm_descriptor']
+            npat, nrdm, N, ncv = kw['n_pattern'], kw['n_rdm'], kw['N'].z, kw['n_cv']
+            ev, nc = res.fields['evaluations'], res.fields['noise_ceiling']
+            ok = isinstance(ev, ArrV) and len(ev.shape) == 3 and isinstance(nc, ArrV) and len(nc.shape) == 3
+            ck.ensure('post/result-arrays-are-(N,models,n_cv)-and-(2,N,n_cv)', z3.BoolVal(ok) if not ok else z3.And(
+                ev.shape[0] == N, ev.shape[1] == models.zlen(), ev.shape[2] == ncv.z, nc.shape[1] == N, nc.shape[2] == ncv.z))
+            if not ok:
+                return
+            a = z3.Int(fresh_name('smp'))
+            E.pc.append(z3.And(a >= 0, a < N))
+            p.pc = list(E.pc)
+            if bt == 'both':
+                S, R, P = E.havoc(cfg['sampler'], [data, rd, pd], SAMPLERS[cfg['sampler']], k=0, idxs=[a])
+            elif bt == 'pattern':
+                S, P = E.havoc(cfg['sampler'], [data, pd], SAMPLERS[cfg['sampler']], k=0, idxs=[a])
+                R = E.lib['numpy.unique'](E, E.getitem(E.getattr(data, 'rdm_descriptors'), rd))
+            else:
+                S, R = E.havoc(cfg['sampler'], [data, rd], SAMPLERS[cfg['sampler']], k=0, idxs=[a])
+                P = E.lib['numpy.unique'](E, E.getitem(E.getattr(data, 'pattern_descriptors'), pd))
+            usable = z3.And(n_unique(E, R) > nrdm.z, n_unique(E, P) >= 3 + npat.z)
+            train, test, ceil = _havoc_sets(E, S, pd, rd, npat, nrdm, k=0, idxs=[a], gen='sets_random', extra=ncv)
+            want_nc = call_repo(E, NC + 'cv_noise_ceiling', S, ceil, test, method=method, pattern_descriptor=pd)
+            sl = slice(None, None, None)
+            got_nc = E.select(nc, (None, a, None))
+            ck.ensure_eq('post/noise-ceiling-of-the-same-resample-and-splits-along-the-bound-axis', got_nc,
+                         CaseV([(usable, E.getitem(E.lib['numpy.array'](E, want_nc), (sl, None))), (z3.Not(usable), NAN)]))
+            got = E.select(ev, (a, None, None))
+            cases = got.cases if isinstance(got, CaseV) else [(z3.BoolVal(True), got)]
+            for g, v in cases:
+                if isinstance(v, float) and v != v:
+                    ck.ensure('post/too-small-draws-are-nan', z3.Implies(g, z3.Not(usable)))
+                    continue
+                if isinstance(v, (int, float)):
+                    ck.ensure('post/only-unwritten-cells-hold-the-initial-value', z3.Not(g))
+                    continue
+                ck.ensure('post/usable-draws-are-evaluated', z3.Implies(g, usable))
+                a0 = peel(v, 'getitem')
+                a1 = peel(a0[0], 'attr.evaluations') if a0 else None
+                b = peel(a1[0], EV + 'crossval') if a1 else None
+                ck.ensure('post/evaluations-come-from-crossval', z3.BoolVal(b is not None and a0[1] == 0), structure=True)
+                if b is None:
+                    continue
+                fv = E.find_function(EV + 'crossval')
+                gotk = dict(zip([x.arg for x in fv.node.args.args], b))
+                saved = p.pc
+                p.pc = list(p.pc) + [g]
+                ck.ensure_eq('post/crossval-gets-the-models', gotk['models'], models)
+                ck.ensure_eq('post/crossval-gets-the-resample', gotk['rdms'], S)
+                for nm, val in (('method', method), ('fitter', fitter), ('pattern_descriptor', pd)):
+                    ck.ensure_eq(f'post/crossval-gets-the-callers-{nm}', gotk[nm], val)
+                ck.ensure_eq('post/crossval-computes-no-ceiling-itself', gotk['calc_noise_ceil'], False)
+                for nm, src in (('train_set', train), ('test_set', test)):
+                    lst = gotk[nm]
+                    okl = isinstance(lst, SeqV)
+                    ck.ensure(f'post/{nm}-is-the-generated-list', z3.BoolVal(okl) if not okl else lst.zlen() == src.zlen())
+                    if not okl:
+                        continue
+                    f = z3.Int(fresh_name('fold'))
+                    in_f = z3.And(f >= 0, f < src.zlen())
+                    el, so = E.seq_elem(lst, f), E.seq_elem(src, f)
+                    for g2, e1 in (el.cases if isinstance(el, CaseV) else [(z3.BoolVal(True), el)]):
+                        okp = isinstance(e1, SeqV) and e1.items is not None and len(e1.items) == 2
+                        ck.ensure(f'post/{nm}-entries-are-[rdms,indices]-pairs', z3.BoolVal(okp))
+                        if okp:
+                            ck.ensure(f'post/{nm}-keeps-the-fold-object', z3.Implies(z3.And(in_f, g2), E.veq(e1.items[0], so.items[0])))
+                            ck.ensure(f'post/{nm}-indices-expanded-to-the-bootstrap-multiplicities', z3.Implies(
+                                z3.And(in_f, g2), E.veq(e1.items[1], call_repo(E, EV + '_concat_sampling', P, so.items[1]))))
+                p.pc = saved
+            g_r = n_groups(E, data, 'rdm_descriptors', rd)
+            g_p = n_groups(E, data, 'pattern_descriptors', pd)
+            want_dof = {'both': z3.If(g_r < g_p, g_r, g_p) - 1, 'pattern': g_p - 1, 'rdm': g_r - 1}[bt]
+            ck.ensure('post/dof-is-resampled-groups-minus-one', E.as_int(res.fields['dof']) == want_dof)
+            ck.ensure_eq('post/cv_method', res.fields['cv_method'], cfg['cv_method'])
+        ck.execute(mk, post=post, allow_raise=lambda *a: None)
+        yield ck
+
+
 def run(run):
     E = engine(run)
     fails = []
@@ -550,6 +655,8 @@ def run(run):
     for ck in check_bootcv(run, engine(run)):
         fails += ck.failed
     for ck in check_dual(run, engine(run)):
+        fails += ck.failed
+    for ck in check_dual_random(run, engine_cv(run)):
         fails += ck.failed
     finish_engine(E, run)
     bds = []
